@@ -20,6 +20,9 @@ Inductive case :=
   (* string.find(s, p, init, true, nil...) : plain search, with nextra further arguments after the
      flag (the flag must be honoured whatever the argument count) *)
 | CFindPlain (s p : bytes) (oinit : option Z) (nextra : Z) (o : obsv (list lval))
+  (* inputs too large to spell out: kind 0 = string.find(("a"):rep(n), "a*");
+     kind 1 = string.find("abc", ("("):rep(n)) *)
+| CBig (kind n : Z) (o : obsv (list lval))
 | CGmatch (s p : bytes) (o : obsv (list (list lval)))
 | CGsub (s p : bytes) (r : repl) (olimit : option Z) (o : obsv gsub_out)
   (* pm.Find through its exported API: per match, (Capture(i), IsPosCapture(i)) for all i *)
@@ -82,6 +85,14 @@ Definition check_impl (c : case) : bool :=
   | CFindPlain s p oi _ o =>
       agree vals_eqb (Ok (match Str.StrModel.strFindPlain s p oi with
                           | Some (a, b) => [VNum a; VNum b] | None => [VNil] end)) o
+  | CBig kind n o =>
+      (* closed forms of the transcription on these inputs: the greedy loop of "a*" nests one
+         recursiveVM level per byte (Save 0, n Splits, Save 1 on top of the first call), so the
+         recursion cap is hit iff n + 3 > maxRecursionLevel; a run of '(' is an unfinished
+         capture (n <= 32) or too many captures *)
+      if kind =? 0 then
+        agree vals_eqb (if n + 3 >? maxRecursionLevel then Err else Ok [VNum 1; VNum n]) o
+      else agree vals_eqb Err o
   | CGmatch s p o => agree tuples_eqb (strGmatch s p) o
   | CGsub s p r ol o => agree gsub_eqb (strGsub s p r ol) o
   | CPmFind p s off lim o => agree md_eqb (of_fres (goFind p s off lim) (fun ms => Ok (map md_view ms))) o
@@ -204,6 +215,9 @@ Definition check_spec (c : case) : bool :=
   | CFindPlain s p oi _ o =>
       agree vals_eqb (Ok (match Str.StrModel.find_plain_spec s p oi with
                           | Some (a, b) => [VNum a; VNum b] | None => [VNil] end)) o
+  | CBig kind n o =>
+      if kind =? 0 then agree vals_eqb (Ok [VNum 1; VNum n]) o      (* lstrlib: max_expand is a loop *)
+      else match o with OErr => true | OOk v => vals_eqb [VNil] v | OPanic => false end
   | CGmatch s p o => spec_ok tuples_eqb (ref_wf p false) (ref_gmatch s p) [] o
   | CGsub s p r ol o => spec_ok gsub_eqb (ref_wf p true) (ref_gsub s p r ol) (s, 0, []) o
   | CPmFind p s off lim o => spec_ok md_eqb (ref_wf p true) (ref_pmfind p s off lim) [] o
